@@ -33,7 +33,7 @@ ASSUMPTIONS = [
 ]
 REQUIRED_COUNTERS = ['histories', 'snapshots_compared', 'final_records_compared',
                      'rejections_checked', 'validator_exceptions_checked',
-                     'late_writes']
+                     'late_writes', 'derived_phases']
 EXHAUSTIVE = {'quick': True, 'thorough': True}
 PLAN = {
     'quick': {'workers': 16, 'budget_s': 50, 'sampled_per_worker': 400,
@@ -278,11 +278,16 @@ def enumerated(tier):
                    'diag': diag}
             yield {'decls': [d], 'ops': [['set', 0, 3], ['set', 0, v]],
                    'catch': catch, 'diag': diag}
+            if catch and diag is not True:
+              yield {'decls': [d], 'ops': [['set', 0, v]], 'catch': catch,
+                     'diag': diag, 'derived': True}
           else:
             c = 0 if DECLS[d][1] == 1 else 0
             yield {'decls': [d], 'ops': [['setd', 0, c, v]], 'catch': catch,
                    'diag': diag}
             if catch and diag is False:
+              yield {'decls': [d], 'ops': [['setd', 0, c, v]], 'catch': catch,
+                     'diag': diag, 'derived': True}
               yield {'decls': [d], 'ops': [['setd', 0, c, v]], 'catch': catch,
                      'diag': diag, 'late': True}
               yield {'decls': [d], 'ops': [['setd', 0, c, 0], ['setd', 0, 1, v]],
@@ -310,7 +315,7 @@ def sampled(tier, rng):
         ops.append(['setd', mi, rng.randrange(8), rng.randrange(len(VALUES))])
     yield {'decls': decls, 'ops': ops, 'catch': rng.random() < .8,
            'diag': rng.choice([True, False, 'internal']),
-           'late': rng.random() < .2,
+           'late': rng.random() < .2, 'derived': rng.random() < .2,
            'ret': rng.choice([None, None, None, 'SKIP', 'REPEAT', 'STOP',
                               'FAIL_AND_CONTINUE'])}
 
@@ -364,7 +369,7 @@ def run_case(case):
       api.measurements[decls[op[1]][0]] = VALUES[op[2]]
 
   @H.PhaseOptions(requires_state=True)
-  def put(state):
+  def put(state, vf_extra=None):
     for op in case['ops']:
       try:
         apply_real(state, op)
@@ -379,6 +384,11 @@ def run_case(case):
     return None
 
   put = H.PhaseOptions(repeat_limit=1)(H.measures(*meas)(put))
+  if case.get('derived'):
+    # the phase that runs is a with_args() derivation of the declared one: its
+    # measurements (validators included) are the derived copies
+    put = put.with_args(vf_extra=1)
+    c['derived_phases'] = 1
   nodes = []
   if case['diag']:
     @H.PhaseDiagnoser(R, name='pre_diag')
